@@ -65,7 +65,7 @@ def gen_cases(rng: random.Random, n: int, styles, kinds=None):
     from .props import c08
     out = []
     for k in range(n):
-        pool = list(kinds) if kinds else ["mask", "nonzero", "setitem", "setitem", "setitem_mask"]
+        pool = list(kinds) if kinds else ["mask", "nonzero", "setitem", "setitem", "setitem_mask", "intindex"]
         kind = pool[k % len(pool)]
         rank = rng.choice([1, 1, 2, 2, 3])
         shape = tuple(rng.choice([1, 2, 3, 4]) for _ in range(rank))
@@ -84,6 +84,24 @@ def gen_cases(rng: random.Random, n: int, styles, kinds=None):
                 return {"x": _data(rng, sh, dtype), "m": _data(rng, sh[:rank_m], "bool")}
             out.append(Case(kind, (kind, rank, rank_m, style, dtype), ["x", "m"], build,
                             {"y": f"tg_render mask {rank_m}"}, ref, (concrete, shape, style)))
+        elif kind == "intindex":
+            idt = rng.choice(INT_DTYPES[:-1])
+            ishape = rng.choice([(), (0,), (1,), (3,), (2, 2)])
+            idims = decl_dims(style, ishape, "I")
+            via_take = rng.random() < 0.4 and len(ishape) == 1
+            def build(dims=dims, idims=idims, dtype=dtype, idt=idt, via_take=via_take):
+                x = ndx.array(shape=dims, dtype=impl.dt(dtype)); i = ndx.array(shape=idims, dtype=impl.dt(idt))
+                return {"x": x, "i": i}, {"y": ndx.take(x, i, axis=0) if via_take else x[i]}
+            def ref(feeds):
+                return {"y": feeds["x"][feeds["i"].astype(np.int64)]}
+            def concrete(rng, sh, ishape=ishape, idt=idt, dtype=dtype):
+                n = sh[0]
+                if n == 0:
+                    raise ValueError("empty leading axis")
+                vals = [rng.randrange(0 if idt.startswith("u") else -n, n) for _ in range(int(np.prod(ishape)))]
+                return {"x": _data(rng, sh, dtype), "i": np.array(vals, dtype=idt).reshape(ishape)}
+            out.append(Case(kind, (kind, rank, len(ishape), via_take, style, idt, dtype), ["x", "i"], build,
+                            {"y": f"tg_render intindex {CODE[idt]}"}, ref, (concrete, shape, "static" if style == "static" else style)))
         elif kind == "nonzero":
             def build(dims=dims, dtype=dtype):
                 x = ndx.array(shape=dims, dtype=impl.dt(dtype))
@@ -142,8 +160,8 @@ def _search(ctx, c, model, outs, rng, why):
     concrete, shape, style = c.concrete
     for t in range(40):
         sh = shape if (style == "static" or t == 0) else tuple(rng.choice([0, 1, 2, 3, 4]) for _ in shape)
-        feeds = concrete(rng, sh)
         try:
+            feeds = concrete(rng, sh)
             ref = c.numpy_ref(feeds)
         except Exception:
             continue
@@ -199,8 +217,8 @@ def run(ctx, n: int, styles=("static", "symbolic", "none"), label="scatter", kin
         concrete, shape, style = c.concrete
         for t in range(2 if style == "static" else 3):
             sh = shape if (style == "static" or t == 0) else tuple(rng.choice([0, 1, 2, 3]) for _ in shape)
-            feeds = concrete(rng, sh)
             try:
+                feeds = concrete(rng, sh)
                 ref = c.numpy_ref(feeds)
             except Exception:
                 continue
